@@ -210,6 +210,52 @@ pub fn run_c08(ctx: &mut Ctx) -> R {
     }
 }
 
+/// C08 with megabytes of PCM: whatever a front-end caps, batches or counts per call in a fixed-size
+/// piece (a buffer limit, a 32-bit byte count) is exercised by one call that carries all of it; the same
+/// PCM in 65539-unit calls and through the other front-ends must give the same file.
+pub fn run_c08_huge(ctx: &mut Ctx) -> R {
+    let ch = ctx.ch.clone();
+    let mut cfg = draw_cfg(&ch, true);
+    let (c, bits) = *ch.pick("c08.huge.shape", &[(1u8, 16u32), (2, 16), (1, 8), (2, 24), (1, 32)]);
+    cfg.channels = c;
+    cfg.bps = bits;
+    cfg.block = *ch.pick("c08.huge.block", &[4096u16, 4608, 1152, 16384]);
+    cfg.lpc = None;
+    cfg.offset = 0;
+    cfg.tags = 0;
+    cfg.seek = *ch.pick("c08.huge.seek", &[SeekPolicy::Off, SeekPolicy::Off, SeekPolicy::Seconds(1)]);
+    // total PCM bytes: around 1, 2, 4, 8 MiB and in between
+    let mib = 1usize << 20;
+    let bytes = *ch.pick("c08.huge.bytes", &[mib + mib / 2, 2 * mib + 17, 4 * mib + 4096, 5 * mib, 6 * mib + 1, 8 * mib + 64, 9 * mib])
+        + ch.draw("c08.huge.extra", 4096) as usize;
+    let frames = bytes / (c as usize * cfg.bytes_per_sample());
+    let pcm = draw_pcm(&ch, cfg.channels, cfg.bps, frames);
+    ctx.describe(|| format!("{} frames={} ({} bytes of PCM)", cfg.describe(), pcm.frames, bytes));
+    probe("c08_megabytes_in_one_call");
+    let gold = match golden(&cfg, &pcm) {
+        Ok(g) => g,
+        Err(e) => {
+            ctx.skip_foreign(format!("one-call encode failed ({e}) — C01's matter"));
+            return Ok(());
+        }
+    };
+    ctx.api(31, 0);
+    for kind in WKINDS {
+        let (total, _) = chunk_units(kind, &pcm);
+        variant(ctx, &cfg, &pcm, kind, &[total], Benign::none(), 0, 0, &[], &format!("writer={kind:?} one call of {total} units"), &gold)?;
+        let piece = *ch.pick("c08.huge.piece", &[65539usize, 1 << 20, 4097, (1 << 22) + 1]);
+        let mut chunks = Vec::new();
+        let mut left = total;
+        while left > 0 {
+            let n = left.min(piece);
+            chunks.push(n);
+            left -= n;
+        }
+        variant(ctx, &cfg, &pcm, kind, &chunks, Benign::none(), 0, 0, &[], &format!("writer={kind:?} calls of {piece} units"), &gold)?;
+    }
+    Ok(())
+}
+
 // ------------------------------------------------------------------------------------------
 // C15
 
@@ -419,7 +465,7 @@ fn c15_stream_writer(ctx: &mut Ctx, ch: &Choices) -> R {
     let rate = *ch.pick("c15.sw.rate", &[44100u32, 0, 1, 12345, 65535, 655350, 655351, (1 << 20) - 1, 1 << 20, u32::MAX, 96000, 300000]);
     let chn = ch.draw("c15.sw.ch", 11) as u8;
     let bps = *ch.pick("c15.sw.bps", &[16u32, 0, 1, 4, 8, 12, 13, 20, 24, 32, 33, 17]);
-    let len = *ch.pick("c15.sw.len", &[10usize, 0, 1, 15, 16, 65535, 65536, 70000, 100, 128, 256, 1152, 4096, 192]);
+    let len = *ch.pick("c15.sw.len", &[10usize, 0, 1, 15, 16, 65535, 65536, 70000, 100, 128, 256, 1152, 4096, 192, 65537, 131071]);
     let opts = match ch.draw("c15.sw.opts", 5) {
         0 => Options::default(),
         1 => Options::fast(),
